@@ -275,6 +275,83 @@ impl Future for PTry {
     }
 }
 
+/// futures whose output has no drop glue (the futures themselves are ordinary tracked children)
+pub struct OFut {
+    pub id: u32,
+    _pin: PhantomPinned,
+}
+pub struct OTry {
+    pub id: u32,
+    _pin: PhantomPinned,
+}
+impl OFut {
+    pub fn new(id: u32) -> Self {
+        let _s = Suspend::new();
+        with(|w| w.alive.insert(id));
+        OFut { id, _pin: PhantomPinned }
+    }
+}
+impl OTry {
+    pub fn new(id: u32) -> Self {
+        let _s = Suspend::new();
+        with(|w| w.alive.insert(id));
+        OTry { id, _pin: PhantomPinned }
+    }
+}
+impl Future for OFut {
+    type Output = PTok;
+    fn poll(self: Pin<&mut Self>, cx: &mut Context<'_>) -> Poll<PTok> {
+        let a = addr_of_self!(self);
+        let (resp, _) = child_poll(self.id, a, cx, false);
+        let _s = Suspend::new();
+        match resp.as_str() {
+            "R" | "X" => {
+                let t = PTok::new(self.id as i64, 0);
+                log_cout(self.id, "R", 0);
+                Poll::Ready(t)
+            }
+            _ => {
+                log_cout(self.id, "P", 0);
+                Poll::Pending
+            }
+        }
+    }
+}
+impl Future for OTry {
+    type Output = Result<PTok, Token>;
+    fn poll(self: Pin<&mut Self>, cx: &mut Context<'_>) -> Poll<Self::Output> {
+        let a = addr_of_self!(self);
+        let (resp, _) = child_poll(self.id, a, cx, false);
+        let _s = Suspend::new();
+        match resp.as_str() {
+            "R" => {
+                let t = PTok::new(self.id as i64, 0);
+                log_cout(self.id, "R", 0);
+                Poll::Ready(Ok(t))
+            }
+            "X" => {
+                let t = Token::new(self.id as i64, 0);
+                log_cout(self.id, "X", 0);
+                Poll::Ready(Err(t))
+            }
+            _ => {
+                log_cout(self.id, "P", 0);
+                Poll::Pending
+            }
+        }
+    }
+}
+impl Drop for OFut {
+    fn drop(&mut self) {
+        log_cdrop(self.id, self as *const _ as usize);
+    }
+}
+impl Drop for OTry {
+    fn drop(&mut self) {
+        log_cdrop(self.id, self as *const _ as usize);
+    }
+}
+
 /// a future with output `()` (for_each_concurrent); completion is logged as "E" (no output value)
 pub struct SUnit {
     pub id: u32,
@@ -341,11 +418,46 @@ impl SStream {
         SStream { id, _pin: PhantomPinned }
     }
 }
+/// items a scripted source still yields if it is driven to its end: (at least, at most)
+pub fn source_left(w: &World, c: u32) -> (usize, usize) {
+    let mut n = 0usize;
+    let mut ended = false;
+    if let Some(q) = w.scripts.get(&c) {
+        for st in q.iter() {
+            if st.resp == "I" {
+                n += 1
+            }
+            if st.resp == "E" {
+                ended = true;
+                break;
+            }
+        }
+    }
+    // (a source the environment has completed ends at its next unscripted poll)
+    if ended || w.ready.contains(&c) {
+        (n, n)
+    } else {
+        (n, n + *w.stream_left.get(&c).unwrap_or(&0) as usize)
+    }
+}
+/// honest hints of the merged sources: even ids report (at least, Some(at most)), odd ids no upper bound
+fn source_hint(id: u32) -> (usize, Option<usize>) {
+    let _s = Suspend::new();
+    let (lo, hi) = with(|w| source_left(w, id));
+    if id % 2 == 0 {
+        (lo, Some(hi))
+    } else {
+        (lo, None)
+    }
+}
 impl Stream for SStream {
     type Item = Token;
     fn poll_next(self: Pin<&mut Self>, cx: &mut Context<'_>) -> Poll<Option<Token>> {
         let a = addr_of_self!(self);
         stream_poll(self.id, a, cx)
+    }
+    fn size_hint(&self) -> (usize, Option<usize>) {
+        source_hint(self.id)
     }
 }
 impl Drop for SStream {
@@ -369,6 +481,9 @@ impl Stream for SStreamU {
     fn poll_next(self: Pin<&mut Self>, cx: &mut Context<'_>) -> Poll<Option<Token>> {
         let a = addr_of_self!(self);
         stream_poll(self.id, a, cx)
+    }
+    fn size_hint(&self) -> (usize, Option<usize>) {
+        source_hint(self.id)
     }
 }
 impl Drop for SStreamU {
